@@ -341,14 +341,21 @@ PropMap(props) ==      \* later entries overwrite earlier ones with the same att
         \A k \in (j + 1)..Len(props) : props[k][1] # props[j][1]}}
 
 OpenRing(xy) == IF Len(xy) >= 2 /\ xy[1] = xy[Len(xy)] THEN SubSeq(xy, 1, Len(xy) - 1) ELSE xy
+\* the lattice pitch of an AREF is (corner - origin) / count; a stream in which that division is
+\* not exact on the database grid denotes no lattice of this model: its placements are a marker
+\* that equals nothing a library can contain (so the comparison fails instead of rounding)
 ArefOffsets(e) ==
     LET o == e.xy[1]
-        v1 == <<ExactDiv(e.xy[2][1] - o[1], e.cols), ExactDiv(e.xy[2][2] - o[2], e.cols)>>
-        v2 == <<ExactDiv(e.xy[3][1] - o[1], e.rows), ExactDiv(e.xy[3][2] - o[2], e.rows)>>
-    IN  [k \in 1..(e.cols * e.rows) |->
-            LET i == (k - 1) \div e.rows
-                j == (k - 1) % e.rows
-            IN  <<i * v1[1] + j * v2[1], i * v1[2] + j * v2[2]>>]
+        d1 == <<e.xy[2][1] - o[1], e.xy[2][2] - o[2]>>
+        d2 == <<e.xy[3][1] - o[1], e.xy[3][2] - o[2]>>
+        exact == d1[1] % e.cols = 0 /\ d1[2] % e.cols = 0 /\ d2[1] % e.rows = 0 /\ d2[2] % e.rows = 0
+        v1 == <<d1[1] \div e.cols, d1[2] \div e.cols>>
+        v2 == <<d2[1] \div e.rows, d2[2] \div e.rows>>
+    IN  IF ~exact THEN << <<1000000007, 1000000007>> >>
+        ELSE [k \in 1..(e.cols * e.rows) |->
+                LET i == (k - 1) \div e.rows
+                    j == (k - 1) % e.rows
+                IN  <<i * v1[1] + j * v2[1], i * v1[2] + j * v2[2]>>]
 
 \* ---- the canonical meaning ("M-shape") of a layout --------------------------------------
 \* [name, cells: sequence of [name, polys, paths, refs, labels]] where
